@@ -12,9 +12,9 @@ use std::time::Duration;
 
 pub const META: Meta = Meta {
     level: "exploration",
-    rule: "tables = every subset of the crafted key alphabet (distances from the local key: 1 [bucket 0], 2, 3 [bucket 1], 2^255, 2^255+1, 2^255+2^254 [bucket 255]; thorough adds 2^7, 2^7+5 [bucket 7], 2^256-1 [bucket 255]) inserted with alternating connected/disconnected status into a real KBucketsTable; bucket-size dimension: 20 (= K_VALUE), 3/4 (bucket 255 exactly full), 1 and 2 (subsets that do not fit are skipped), and sizes above K_VALUE: 23/24 with 20 further fixed keys in bucket 255 inserted before resp. after the subset (bucket 255 holds up to 23/24 > K_VALUE entries), 21 with 19 fixed keys, thorough also 44 with 40 fixed keys; local key sha256(peer0) (thorough: also 0 and 2^256-1); targets = local key, every alphabet key, and local ^ d for d in {4,5,2^8,2^8+1,2^256-2,2^256-1,2^255+3,2^255+2} (thorough adds 6,7,2^255+2^100,2^255+2^100+1,2^254, sha256(peer1), sha256(peer2), sha256(peer3)); both closest_keys() and closest(). Non-trivial = distinct (local, bucket_size, subset, target, api) cases with at least 2 stored keys.",
+    rule: "tables = every subset of the crafted key alphabet (distances from the local key: 1 [bucket 0], 2, 3 [bucket 1], 2^255, 2^255+1, 2^255+2^254 [bucket 255]; thorough adds 2^7, 2^7+5 [bucket 7], 2^256-1 [bucket 255]) inserted with alternating connected/disconnected status into a real KBucketsTable; bucket-size dimension: 20 (= K_VALUE), 3/4 (bucket 255 exactly full), 1 and 2 (subsets that do not fit are skipped), and sizes above K_VALUE: 23/24 with 20 further fixed keys in bucket 255 inserted before resp. after the subset (bucket 255 holds up to 23/24 > K_VALUE entries), 21 with 19 fixed keys, thorough also 44 with 40 fixed keys; local key sha256(peer0) (thorough: also 0 and 2^256-1); targets = local key, every alphabet key, and local ^ d for d in {4,5,2^8,2^8+1,2^256-2,2^256-1,2^255+3,2^255+2} (thorough adds 6,7,2^255+2^100,2^255+2^100+1,2^254, sha256(peer1), sha256(peer2), sha256(peer3)); both closest_keys() and closest(). Plus tables with a pending entry (bucket size 2, 3; thorough 1-4; oldest entry disconnected, every connected/disconnected pattern of the others, optional keys in buckets 0 and 1, one connected key pending for bucket 255), virtual clock advanced by 500 / 1000 / 2500 ms against the 1 s pending timeout, then closest_keys / closest as the FIRST access for every target, compared with what KBucketsTable::iter shows right after the call. Non-trivial = distinct (local, bucket_size, subset, target, api) cases with at least 2 stored keys.",
     explanation: "Complete enumeration (E3) of subsets x targets; every output is compared with the stored key set (exactly once each) and checked for non-decreasing XOR distance computed independently.",
-    assumptions: &["crafted key alphabet with buckets 0, 1, (7,) 255 occupied and >= 3 keys sharing bucket 255 (small-scope)", "no pending entries are involved (C37 covers pending application)"],
+    assumptions: &["crafted key alphabet with buckets 0, 1, (7,) 255 occupied and >= 3 keys sharing bucket 255 (small-scope)", "pending entries: one pending entry in bucket 255 of a table with bucket size 2/3 (thorough 1-4), clock advanced 500 / 1000 / 2500 ms against a 1 s pending timeout"],
 };
 
 /// guard against a never-ending iterator (far above any table size here)
@@ -231,6 +231,123 @@ fn case_json(thorough: bool, ci: usize, subset: u64, target: usize) -> Value {
     json!({"thorough": thorough, "cfg": ci, "subset": subset, "target": target})
 }
 
+// ---------------------------------------------------------------------------------------------
+// tables with a pending entry: the enumeration is the FIRST access after the clock moved, so the
+// iterator itself has to apply the due pending entry. Reference = what the table stores right
+// after the call (KBucketsTable::iter), which must be exactly what was enumerated.
+
+#[derive(Clone, Debug)]
+struct PCase {
+    size: usize,
+    /// connected? of entries 1..size (entry 0 is disconnected = the eviction candidate)
+    pattern: u32,
+    adv_ms: u64,
+    /// subset of the low keys d=1 (bucket 0), d=2 (bucket 1)
+    low: u32,
+    target: usize,
+}
+
+fn pcase_json(thorough: bool, c: &PCase) -> Value {
+    json!({"kind": "pending", "thorough": thorough, "size": c.size, "pattern": c.pattern, "adv_ms": c.adv_ms, "low": c.low, "target": c.target})
+}
+
+/// returns (violations, pending entry applied during the call?)
+fn run_pending_case(c: &PCase, local_b: &B, targets: &[(String, B)]) -> Result<(Vec<String>, bool), String> {
+    mc::vclock::reset();
+    let local = kx::make_key(local_b)?;
+    let mut t = Table::new(local, c.size, Duration::from_secs(1));
+    let mut names: Vec<(String, B)> = Vec::new();
+    let mut mk = |name: String, d: B| -> Result<KeyBytes, String> {
+        let b = kx::xor(local_b, &d);
+        names.push((name, b));
+        kx::make_key(&b)
+    };
+    for j in 0..c.size {
+        let conn = j > 0 && c.pattern & (1 << (j - 1)) != 0;
+        let k = mk(format!("e{j}{}", if conn { "c" } else { "d" }), prefill_distance(j))?;
+        match t.insert(&k, if conn { NodeStatus::Connected } else { NodeStatus::Disconnected }) {
+            Ok(kb::Inserted::Inserted) => {}
+            r => return Err(format!("setup: insert of entry {j} answered {r:?}")),
+        }
+    }
+    for (i, d) in [kx::pow2(0), kx::pow2(1)].iter().enumerate() {
+        if c.low & (1 << i) != 0 {
+            let k = mk(format!("low{}", i + 1), *d)?;
+            match t.insert(&k, NodeStatus::Connected) {
+                Ok(kb::Inserted::Inserted) => {}
+                r => return Err(format!("setup: insert of low key answered {r:?}")),
+            }
+        }
+    }
+    let pk = mk("P".into(), prefill_distance(c.size))?;
+    match t.insert(&pk, NodeStatus::Connected) {
+        Ok(kb::Inserted::Pending { .. }) => {}
+        r => return Err(format!("setup: insert of the pending key answered {r:?}")),
+    }
+    mc::vclock::advance(Duration::from_millis(c.adv_ms));
+    let (tn, td) = &targets[c.target];
+    let tb = kx::xor(local_b, td);
+    let target = kx::make_key(&tb)?;
+    let name_of = |b: &B| names.iter().find(|n| n.1 == *b).map(|n| n.0.clone()).unwrap_or_else(|| format!("?{}", kx::hex(b)));
+    let mut viols = Vec::new();
+    let mut applied_any = false;
+    for api in ["closest_keys", "closest"] {
+        let mut tc = t.clone();
+        // first access to the table after the clock moved
+        let out: Vec<B> = if api == "closest_keys" { tc.closest_keys(&target, LIMIT).iter().map(kx::key_bytes).collect() } else { tc.closest(&target, LIMIT).iter().map(|e| kx::key_bytes(&e.0)).collect() };
+        let mut events = Vec::new();
+        while let Some((ins, ev)) = tc.take_applied_pending() {
+            events.push((name_of(&kx::key_bytes(&ins)), ev.map(|k| name_of(&kx::key_bytes(&k)))));
+        }
+        applied_any |= !events.is_empty();
+        // what the table stores right after the call
+        let stored: Vec<B> = tc.iter_buckets(false).iter().flat_map(|b| b.entries.iter().map(|e| kx::key_bytes(&e.0)).collect::<Vec<_>>()).collect();
+        let ctx = format!("bucket_size={} entries(first = oldest, d/c = dis/connected)+pending: {:?}, clock advanced {} ms of 1000 ms pending timeout, target=local^{tn}; enumerated {:?}; stored right after the call {:?}; applied-pending events of the call {events:?}", c.size, names.iter().map(|n| &n.0).collect::<Vec<_>>(), c.adv_ms, out.iter().map(name_of).collect::<Vec<_>>(), stored.iter().map(name_of).collect::<Vec<_>>());
+        let due = if c.adv_ms >= 1000 { "due" } else { "not yet due" };
+        for b in &out {
+            if !stored.contains(b) {
+                viols.push(format!("{api}: key yielded that is not stored after the call (table with a {due} pending entry) :: yielded {}; {ctx}", name_of(b)));
+                break;
+            }
+        }
+        for sb in &stored {
+            match out.iter().filter(|b| *b == sb).count() {
+                1 => {}
+                0 => {
+                    viols.push(format!("{api}: stored key missing from output (table with a {due} pending entry) :: missing {}; {ctx}", name_of(sb)));
+                    break;
+                }
+                n => {
+                    viols.push(format!("{api}: key yielded {n} times (table with a {due} pending entry) :: {}; {ctx}", name_of(sb)));
+                    break;
+                }
+            }
+        }
+        let dists: Vec<B> = out.iter().map(|b| kx::xor(b, &tb)).collect();
+        if dists.windows(2).any(|w| w[0] > w[1]) {
+            viols.push(format!("{api}: output not in non-decreasing distance (table with a {due} pending entry) :: {ctx}"));
+        }
+    }
+    Ok((viols, applied_any))
+}
+
+fn pending_cases(thorough: bool, ntargets: usize) -> Vec<PCase> {
+    let mut v = Vec::new();
+    let sizes: &[usize] = if thorough { &[1, 2, 3, 4] } else { &[2, 3] };
+    for &size in sizes {
+        for pattern in 0..(1u32 << (size - 1)) {
+            for adv_ms in [500u64, 1000, 2500] {
+                for low in 0..4u32 {
+                    for target in 0..ntargets {
+                        v.push(PCase { size, pattern, adv_ms, low, target });
+                    }
+                }
+            }
+        }
+    }
+    v
+}
+
 pub fn run(ctx: &Ctx) -> Outcome {
     let mut out = Outcome::default();
     if let Err(m) = kx::selftest_key_bytes() {
@@ -249,6 +366,21 @@ pub fn run(ctx: &Ctx) -> Outcome {
     };
     if let Some(case) = &ctx.replay {
         out.evaluations = 1;
+        if case["kind"] == "pending" {
+            let g = |f: &str| case[f].as_u64().unwrap_or(0);
+            let pc = PCase { size: g("size") as usize, pattern: g("pattern") as u32, adv_ms: g("adv_ms"), low: g("low") as u32, target: g("target") as usize };
+            let targets = mk_targets(&cfgs[0]);
+            match mc::catch(|| run_pending_case(&pc, &cfgs[0].local, &targets)) {
+                Ok(Ok((v, _))) => {
+                    for m in v {
+                        out.violation(mc::bfs::signature_of(&m), m, case.clone());
+                    }
+                }
+                Ok(Err(m)) => out.machinery(m),
+                Err(p) => out.violation("panic", format!("panic :: {p}"), case.clone()),
+            }
+            return out;
+        }
         let ci = case["cfg"].as_u64().unwrap_or(0) as usize;
         let targets = mk_targets(&cfgs[ci]);
         let c = Case { cfg: &cfgs[ci], alpha: &alpha, targets: &targets, subset: case["subset"].as_u64().unwrap_or(0), target: case["target"].as_u64().unwrap_or(0) as usize };
@@ -309,6 +441,40 @@ pub fn run(ctx: &Ctx) -> Outcome {
                     out.sample(json!({"local": cfg.local_name, "stored_d": alpha.iter().enumerate().filter(|(i, _)| subset & (1 << i) != 0).map(|(_, a)| a.0.clone()).collect::<Vec<_>>(), "target": format!("local^{}", targets[ti].0), "bucket_order_prefix": kb::closest_buckets_order(kx::dist_of(&targets[ti].1), 4)}));
                 }
             }
+        }
+    }
+    // tables with a (not yet due / exactly due / overdue) pending entry
+    {
+        let targets = mk_targets(&cfgs[0]);
+        let mut applied_cases = 0u64;
+        let mut not_due_cases = 0u64;
+        let pcs = pending_cases(thorough, targets.len());
+        for pc in &pcs {
+            out.evaluations += 1;
+            match mc::catch(|| run_pending_case(pc, &cfgs[0].local, &targets)) {
+                Ok(Ok((v, applied))) => {
+                    if applied {
+                        applied_cases += 1;
+                    } else {
+                        not_due_cases += 1;
+                    }
+                    for m in v {
+                        out.violation(mc::bfs::signature_of(&m), m, pcase_json(thorough, pc));
+                    }
+                }
+                Ok(Err(m)) => out.machinery(m),
+                Err(p) => out.violation(format!("panic at {}", mc::shim::last_panic_loc().unwrap_or_default()), format!("panic :: {p}"), pcase_json(thorough, pc)),
+            }
+            out.nontrivial(&format!("pending {pc:?}"));
+        }
+        out.count("pending_cases", pcs.len() as u64);
+        out.count("pending_cases_where_the_enumeration_applied_the_pending_entry", applied_cases);
+        out.count("pending_cases_without_application", not_due_cases);
+        if applied_cases == 0 || not_due_cases == 0 {
+            out.machinery(format!("vacuity: pending entry applied by the enumeration in {applied_cases} cases, not applied in {not_due_cases}"));
+        }
+        if let Some(pc) = pcs.get(pcs.len() / 2) {
+            out.sample(json!({"pending_case": format!("{pc:?}")}));
         }
     }
     for (k, n) in &classes {
